@@ -1004,6 +1004,16 @@ func bicgStage(r *ev.Run, full bool) {
 			mixed[i] = float64(i*i) - 1.5
 		}
 		rhs = append(rhs, ones, mixed, zero)
+		// right-hand sides whose entries cancel (so do the first residuals): a stopping rule that adds signed
+		// residuals instead of magnitudes is satisfied by them before anything is solved
+		anti := make(numerical.Vec, n)
+		anti[0], anti[n-1] = anti[0]+1, anti[n-1]-1
+		rhs = append(rhs, anti)
+		if n >= 3 {
+			hat := make(numerical.Vec, n)
+			hat[0], hat[1], hat[2] = 1, -2, 1
+			rhs = append(rhs, hat)
+		}
 		for bi, b := range rhs {
 			// initial guesses: none, zero, a wrong one, and the exact solution of a system built from it
 			guesses := []numerical.Vec{nil, make(numerical.Vec, n), mixed.Scale(0.5)}
